@@ -40,7 +40,7 @@ func WriteWire(w *spec.WCase, root string, env Env) (*Layout, error) {
 			return nil, err
 		}
 	}
-	if err := wr(filepath.Join(l.AppDir, "types.go"), withImports(c, UserPkg, typesSource(c)+wireValueVars(w))); err != nil {
+	if err := wr(filepath.Join(l.AppDir, "types.go"), withImports(c, UserPkg, typesSource(c)+wireValueVars(w)+pkgFuncsSource(c))); err != nil {
 		return nil, err
 	}
 	if err := wr(filepath.Join(l.AppDir, "providers.go"), withImports(c, UserPkg, providersSource(c))); err != nil {
@@ -55,6 +55,14 @@ func WriteWire(w *spec.WCase, root string, env Env) (*Layout, error) {
 		l.Files = append(l.Files, p)
 	}
 	return l, nil
+}
+
+func pkgFuncsSource(c *spec.Case) string {
+	var sb strings.Builder
+	for _, n := range c.PkgFuncs {
+		fmt.Fprintf(&sb, "func %s() int { return 0 }\n\n", n)
+	}
+	return sb.String()
 }
 
 func wireValueVars(w *spec.WCase) string {
@@ -108,7 +116,7 @@ func wireElem(w *spec.WCase, e *spec.WElem) string {
 			if x.Alias != "" {
 				n = x.Alias
 			}
-			return "wire.Value(" + n + "." + e.Var + ")"
+			return "wire.Value(" + n + "." + e.Var + ")" // e.Var may be a selector chain (Holder.V)
 		}
 		return "wire.Value(" + e.Var + ")"
 	case "ivalue":
